@@ -344,8 +344,12 @@ def nameDigits (n : Nat) : List (Fin 26) :=
 termination_by n
 decreasing_by omega
 
-def lowerLetters : List Char := "abcdefghijklmnopqrstuvwxyz".toList
-def upperLetters : List Char := "ABCDEFGHIJKLMNOPQRSTUVWXYZ".toList
+def lowerLetters : List Char :=
+  ['a', 'b', 'c', 'd', 'e', 'f', 'g', 'h', 'i', 'j', 'k', 'l', 'm', 'n', 'o', 'p', 'q', 'r', 's', 't', 'u', 'v',
+   'w', 'x', 'y', 'z']
+def upperLetters : List Char :=
+  ['A', 'B', 'C', 'D', 'E', 'F', 'G', 'H', 'I', 'J', 'K', 'L', 'M', 'N', 'O', 'P', 'Q', 'R', 'S', 'T', 'U', 'V',
+   'W', 'X', 'Y', 'Z']
 
 /-- `next_lifetime_name`: "a", …, "z", "aa", "ab", … -/
 def lname (n : Nat) : String := String.ofList ((nameDigits n).map (fun d => lowerLetters.getD d.val 'a'))
